@@ -1,5 +1,5 @@
 import FeatherModel.Base.Driver
-import FeatherModel.Model.MergeJar
+import FeatherModel.Model.MergeJarDom
 
 /-!
 Driver of C13. Wire format (mirrored by `harness/src/bin/c13.rs`):
@@ -12,6 +12,10 @@ class   := (version access #name (#super)? (#itf…) (member…) (member…) dep
 content := dir | (other xBYTES) | (class p|v class)
 entry   := (#name attr content)
 jar     := (entry…)
+
+Answers of `merge-class` / `merge-jars`: `ok <content|jar>`, `err e`, `ok (panic <site>)` where site is `merge_from_client`
+(the `assert_eq!` of `merge_from_client`) or `inner_classes` (the `assert_eq!` in the InnerClasses closure); the harness
+catches the unwinding of the real code and names the site from the panic message.
 -/
 
 open Driver Sexp MergeJar
@@ -94,7 +98,7 @@ def jarFrom (s : Sexp) : Option Jar := do pure (jarOfList (← toListOf? entryFr
 def outcome {α : Type} (f : α → Sexp) : Outcome α → Ans
   | Outcome.ok a => Ans.ok (f a)
   | Outcome.err => Ans.err "e"
-  | Outcome.panic s => Ans.panic s
+  | Outcome.panic s => Ans.ok (list [tag "panic", tag s])
 
 end C13Codec
 
@@ -106,46 +110,101 @@ def fail (t : String) : Ans := .ok (list [tag "fail", tag t])
 
 def subsetB (xs ys : List Nat) : Bool := xs.all (fun x => ys.contains x)
 
-/-- `oracle-marks`: the statement of `Thm.C13.slice_marks` / `itf_marks` evaluated on a merged class -/
+/-! ### class-level statements, evaluated on a merged class `r` (none = holds, some tag = violated) -/
+
+/-- `ExactUnion`, client order, server order under compatibility for one pair of lists -/
+def listCheck {α : Type} [BEq α] (tg : String) (a b r : List α) : Option String :=
+  if !(nodupB r && r.all (fun x => a.contains x || b.contains x) && (a ++ b).all (fun x => r.contains x)) then some (tg ++ "-union")
+  else if !a.isSublist r then some (tg ++ "-client-order")
+  else if compatibleB a b && !b.isSublist r then some (tg ++ "-server-order")
+  else none
+
+def firstSome : List (Option String) → Option String
+  | [] => none
+  | some t :: _ => some t
+  | none :: rest => firstSome rest
+
+/-- `class_exactly_once`, `class_client_order`, `class_server_order`, `class_inners`, header part of `class_parts` -/
+def unionCheck (c s r : Class) : Option String :=
+  firstSome [
+    listCheck "fields" (c.fields.map memberKey) (s.fields.map memberKey) (r.fields.map memberKey),
+    listCheck "methods" (c.methods.map memberKey) (s.methods.map memberKey) (r.methods.map memberKey),
+    listCheck "itfs" c.interfaces s.interfaces r.interfaces,
+    listCheck "inners" (c.inners.map (·.name)) (s.inners.map (·.name)) (r.inners.map (·.name)),
+    (if r.inners.all (fun i => c.inners.contains i || s.inners.contains i) then none else some "inner-entry"),
+    (if r.version == c.version && r.access == c.access && r.name == c.name && r.super == c.super &&
+        r.deprecated == c.deprecated && r.synthetic == c.synthetic && r.payload == c.payload && r.visAnns == c.visAnns
+     then none else some "header")]
+
+/-- `slice_marks` (with duplicate-free keys: the member found under the key) -/
 def marksOfMembers (c s r : List Member) : Bool :=
   r.all fun m =>
     match c.find? (fun x => memberKey x == memberKey m), s.find? (fun x => memberKey x == memberKey m) with
-    | some mc, some _ => m.anns == mc.anns
-    | some mc, none => m.anns == mc.anns ++ [Ann.env Side.client]
-    | none, some ms => m.anns == ms.anns ++ [Ann.env Side.server]
+    | some mc, some _ => m == mc
+    | some mc, none => m == { mc with anns := mc.anns ++ [Ann.env Side.client] }
+    | none, some ms => m == { ms with anns := ms.anns ++ [Ann.env Side.server] }
     | none, none => false
 
+/-- `slice_mark_count` -/
+def markCounts (c s r : List Member) : Bool :=
+  r.all fun m =>
+    envMarks m == (if (c.map memberKey).contains (memberKey m) then
+                     (if (s.map memberKey).contains (memberKey m) then [] else [Side.client])
+                   else [Side.server])
+
+/-- `itf_marks` -/
 def marksOfItfs (c s r : Class) : Bool :=
   let only1 := r.interfaces.filter (fun i => c.interfaces.contains i != s.interfaces.contains i)
   if only1.isEmpty then r.invisAnns == c.invisAnns else
   match r.invisAnns.getLast? with
   | some (Ann.envItfs marks) =>
     r.invisAnns.dropLast == c.invisAnns && nodupB marks &&
-    marks.all (fun (sd, i) => match sd with
+    marks.all (fun (sd, i) => r.interfaces.contains i && match sd with
       | Side.client => c.interfaces.contains i && !s.interfaces.contains i
       | Side.server => s.interfaces.contains i && !c.interfaces.contains i) &&
     only1.all (fun i => marks.any (fun (_, j) => i == j))
   | _ => false
 
-def marksDomain (c s : Class) : Bool :=
-  mergeOk c s && c != s && noEnv c.fields && noEnv s.fields && noEnv c.methods && noEnv s.methods &&
-  nodupB c.interfaces && nodupB s.interfaces
+def marksCheck (c s r : Class) : Option String :=
+  if !marksOfMembers c.fields s.fields r.fields then some "field-marks"
+  else if !marksOfMembers c.methods s.methods r.methods then some "method-marks"
+  else if !(markCounts c.fields s.fields r.fields && markCounts c.methods s.methods r.methods) then some "mark-count"
+  else if !marksOfItfs c s r then some "itf-marks" else none
 
-def keepName (clientNames : List JStr) (n : JStr) : Bool :=
-  !isSig n && !(isBundled n && !clientNames.contains n)
+/-! ### the entry table as a specification (`entry_*`, `one_sided_marks`) -/
 
-/-- the jar-level domain: names kinds agree, differing classes are mergeable -/
-def jarDomain (client server : Jar) : Bool :=
-  client.all fun (n, c) =>
-    n == MANIFEST || isSig n ||
-    match get n server with
-    | none => true
-    | some s =>
+def oneSidedSpec (e : Entry) (sd : Side) : Entry :=
+  match e.content with
+  | Content.cls _ c => { attr := e.attr, content := Content.cls ClsRepr.parsed { c with visAnns := c.visAnns ++ [Ann.env sd] } }
+  | _ => e
+
+def entryCheck (client server : Jar) (n : JStr) (e : Entry) : Option String :=
+  let oc := get n client
+  let os := get n server
+  if n == MANIFEST then
+    let attr := match oc, os with
+      | some c, _ => c.attr
+      | none, some s => s.attr
+      | none, none => 0
+    if e == { attr := attr, content := Content.other MANIFEST_BYTES } then none else some "manifest"
+  else match oc, os with
+    | some c, none => if e == oneSidedSpec c Side.client then none else some "client-only"
+    | none, some s => if e == oneSidedSpec s Side.server then none else some "server-only"
+    | none, none => some "extra"
+    | some c, some s =>
       match c.content, s.content with
-      | Content.dir, Content.dir => true
-      | Content.other _, Content.other _ => true
-      | Content.cls _ cc, Content.cls _ cs => cc == cs || mergeOk cc cs
-      | _, _ => false
+      | Content.dir, Content.dir => if e == { attr := c.attr, content := Content.dir } then none else some "dir"
+      | Content.other dc, Content.other _ => if e == { attr := c.attr, content := Content.other dc } then none else some "resource"
+      | Content.cls _ cc, Content.cls _ cs =>
+        if cc == cs then (if e == c then none else some "passthrough") else
+        (match e.content with
+         | Content.cls ClsRepr.parsed m =>
+           if e.attr != c.attr then some "merged-attr" else
+           match (if unionDomain cc cs then unionCheck cc cs m else none) with
+           | some t => some t
+           | none => if marksDomain cc cs then marksCheck cc cs m else none
+         | _ => some "merged-repr")
+      | _, _ => some "kind"
 
 def handleC13 (op : String) (args : List Sexp) : Option Ans :=
   match op, args with
@@ -175,30 +234,39 @@ def handleC13 (op : String) (args : List Sexp) : Option Ans :=
     let c ← classFrom c; let s ← classFrom s
     if !marksDomain c s then pure ood else
     pure (match mergeClass c s with
-      | Outcome.ok r =>
-        if !marksOfMembers c.fields s.fields r.fields then fail "field-marks"
-        else if !marksOfMembers c.methods s.methods r.methods then fail "method-marks"
-        else if !marksOfItfs c s r then fail "itf-marks" else pass
-      | _ => fail "not-ok")
+      | Outcome.ok r => (match marksCheck c s r with | some t => fail t | none => pass)
+      | Outcome.panic _ => fail "panic"
+      | Outcome.err => fail "not-ok")
+  | "oracle-class-union", [c, s] => do
+    let c ← classFrom c; let s ← classFrom s
+    if !unionDomain c s then pure ood else
+    pure (match mergeClass c s with
+      | Outcome.ok r => (match unionCheck c s r with | some t => fail t | none => pass)
+      | Outcome.panic _ => fail "panic"
+      | Outcome.err => fail "not-ok")
+  | "oracle-class-ok-iff", [c, s] => do
+    let c ← classFrom c; let s ← classFrom s
+    if !keysOk c s then pure ood else
+    let isOk := match mergeClassEntry ClsRepr.parsed c s with | Outcome.ok _ => true | _ => false
+    pure (if isOk == mergeOk c s then pass else fail (if isOk then "ok-outside-mergeOk" else "not-ok-inside-mergeOk"))
+  | "oracle-no-panic", [c, s] => do
+    let c ← classFrom c; let s ← classFrom s
+    if !noPanicB c s then pure ood else
+    pure (match mergeClassEntry ClsRepr.parsed c s with | Outcome.panic _ => fail "panic" | _ => pass)
   | "oracle-entries", [c, s] => do
     let c ← jarFrom c; let s ← jarFrom s
     if !jarDomain c s then pure ood else
     pure (match mergeJar c s with
       | Outcome.ok r =>
-        let cn := c.map (·.1)
-        let sn := s.map (·.1)
-        let expect := (cn ++ sn.filter (fun n => !cn.contains n)).filter (keepName cn)
-        if r.map (·.1) != expect then fail "names" else
-        -- identical classes are passed through in the client's representation
-        if c.all (fun (n, ce) => match ce.content, get n s with
-            | Content.cls rc cc, some se =>
-              n == MANIFEST || isSig n ||
-              (match se.content with
-               | Content.cls _ cs => cc != cs || (get n r).map (·.content) == some (Content.cls rc cc)
-               | _ => true)
-            | _, _ => true)
-        then pass else fail "passthrough"
-      | _ => fail "not-ok")
+        let cn := names c
+        let sn := names s
+        let expect := (cn ++ sn.filter (fun n => !cn.contains n)).filter (kept c)
+        if names r != expect then fail "names" else
+        (match firstSome (r.map (fun (n, e) => entryCheck c s n e)) with
+         | some t => fail t
+         | none => pass)
+      | Outcome.panic _ => fail "panic"
+      | Outcome.err => fail "not-ok")
   | _, _ => none
 
 def main : IO Unit := Driver.run handleC13
